@@ -120,11 +120,18 @@ Definition cmd_init : M (list bytes) :=
   w <- getw ;;
   guard (negb (w_inited w)) ;;; emit EInit ;;; ret [].
 
+(* the config file is line based: an empty section name, or a line feed in
+   "<section>.<key>" or in the value, would write a file that no command can
+   load any more; such a call is refused before anything is created or written *)
+Definition config_args_ok (sec key value : bytes) : bool :=
+  negb (is_nil sec) && negb (contains_byte c_nl key) && negb (contains_byte c_nl value).
+
 Definition cmd_config (c : ctx) (global : bool) (args : list bytes) : M (list bytes) :=
   match args with
   | [key; value] =>
     match split_all x2e key with
     | [sec; k] =>
+      guard (config_args_ok sec key value) ;;;
       w <- getw ;;
       (if global then
          match w_gcfg w with
